@@ -103,7 +103,13 @@ CHECKS = {
               'load_allocations/load_app/find_assignment; a third, dynamic '
               'slice runs every add/move/remove sequence (depth <=4, 2 '
               'allocations x 2 instances) on the real Cell.add_app/remove_app '
-              'and checks exactly-once queue membership after each step.',
+              'and checks exactly-once queue membership after each step; '
+              'deep-tree slices (all forests of 4 nodes to depth 4 and of 5 '
+              'nodes to depth 5 with reduced menus); a re-prioritisation '
+              'slice: every history of depth 4 (quick) / 5 (thorough) over '
+              'submit / manifest-priority change / assignment-priority '
+              'change / reload / cycle through the real Loader, queue judged '
+              'after every event with first-come = original arrival.',
               '5/C06',
               note='virtual clock gives distinct increasing global_order; '
                    'priority-0 = infinite utilisation by definition; boost '
